@@ -16,11 +16,11 @@ ASSUMPTIONS = [
     "brute force over the box is the oracle (numpy matmul, int64)",
 ]
 BOUNDS = {
-    "quick": "1x1 1x2 1x3 2x1 2x2 3x2q 1x2w 2x2p (see mc/mspace.py for alphabets) + polyhedra of abc/explicit models",
+    "quick": "1x1 1x2 1x3 2x1 2x2 3x2q 1x2w big (see mc/mspace.py for alphabets) + polyhedra of abc/explicit models",
     "thorough": "quick + 2x2b 2x3 3x2 2x2T 1x3T 2x3T 3x3T + polyhedra of abt/explicit, diamond/explicit",
 }
-QUICK = ["1x1", "1x2", "1x3", "2x1", "2x2", "3x2q", "1x2w", "2x2p", "big"]
-THOROUGH = QUICK + ["2x3q", "2x2b", "2x3", "3x2", "2x2T", "1x3T", "2x3T", "3x3T"]
+QUICK = ["1x1", "1x2", "1x3", "2x1", "2x2", "3x2q", "1x2w", "big"]
+THOROUGH = QUICK + ["2x2p", "2x3q", "2x2b", "2x3", "3x2", "2x2T", "1x3T", "2x3T", "3x3T"]
 QUICK_MODELS = ["abc/explicit"]
 THOROUGH_MODELS = ["abc/explicit", "abt/explicit", "diamond/explicit"]
 
@@ -37,7 +37,7 @@ def run_shard(desc, acc, tier):
         for idx in range(lo, hi):
             M, bds = mspace.case_at(name, idx)
             check(mspace.polyhedron(M, bds), acc, {"kind": "M", "space": name, "idx": idx})
-            if idx % 4 == 0:
+            if idx % 8 == 0:
                 # the same matrix over a box with EQUAL HASH SUMS ((lo+1, hi-1) for every wide enough column) right afterwards: anything
                 # remembered under a key derived from hash(variable) is wrong for the twin
                 tw = [(lo_ + 1, hi_ - 1) if hi_ - lo_ >= 2 else (lo_, hi_) for (lo_, hi_) in bds]
